@@ -457,6 +457,13 @@ def bounds(P, R):
         R.ob('C14.BND.2', oksz, szs[0] if szs else ps, 'the decode buffer is as long as the scanned text plus the terminator', key='decode-buffer')
         a = first_alloc.ev['rhs']['args'][0]
         R.ob('C14.BND.2', is_field(a, 'size'), first_alloc, 'and is allocated with exactly that size', key='decode-alloc', nontrivial=False)
+        # that size is an upper bound only while every decoded byte costs at least one source byte: the buffer is filled
+        # by single element stores, nothing appends to it wholesale (an expansion that inserts text of its own length)
+        bv = root_var(first_alloc.ev['lhs'])
+        if bv is not None:
+            app = [t for t in ps.calls() if ps.before(first_alloc, t) and any(isinstance(x, dict) and x.get('k') == 'un' and x.get('op') == '&' and is_var(x.get('e'), bv['name']) for a_ in t.ev['args'] for x in walk(a_))]
+            R.ob('C14.BND.2', not app, app[0] if app else first_alloc, 'the decode buffer grows by one element store per source byte: no call appends to %s' % bv['name'], key='decode-no-append',
+                 detail=[t.loc for t in app] or None, nontrivial=bool(app))
     R.floor('C14.BND.2', 6)
 
 
@@ -874,4 +881,8 @@ def run(P, R, tier):
     bounds(P, R)
     # the parser and the merge keep nothing from one load (or one entry, or one nested call) to the next
     rules.no_static_locals(P, R, 'C14.WMC.9', P.unit_fns(P.need_fn('conf_read').unit), 'configuration code')
+    # "either succeeds or reports an error": a reload request always reaches the reader (a request that is silently
+    # skipped - "the file looks unchanged" - reports nothing about a file that is broken)
+    from . import c17 as _c17
+    _c17.wiring(P, Remap(R, {'C17.WIRE.1': 'C14.WIRE.1'}, keys=('sigusr1-reload', 'sigusr1-armed')))
     return EXPLANATION, ASSUMPTIONS
